@@ -329,8 +329,10 @@ def c04_sweep_indices(res, run, world, lo, hi, subs):
 
 
 STATES = ["idle", "segdn", "segup", "blkdn", "dnwait", "blkupwait", "blkupsent",
-          "done-expdn", "done-expup", "done-segdn", "done-segup", "done-blkdn", "done-blkup"]
-IDLE_LIKE = ("idle", "done-expdn", "done-expup", "done-segdn", "done-segup", "done-blkdn", "done-blkup")
+          "done-expdn", "done-expup", "done-segdn", "done-segup", "done-blkdn", "done-blkup",
+          "abrt-segdn-toggle", "abrt-segup-toggle", "abrt-blkdn-overrun", "abrt-segdn-overrun", "abrt-blkdn-size"]
+IDLE_LIKE = ("idle", "done-expdn", "done-expup", "done-segdn", "done-segup", "done-blkdn", "done-blkup",
+             "abrt-segdn-toggle", "abrt-segup-toggle", "abrt-blkdn-overrun", "abrt-segdn-overrun", "abrt-blkdn-size")
 
 
 def enter_state(run, world, st, dom, bs=4):
@@ -351,6 +353,12 @@ def enter_state(run, world, st, dom, bs=4):
         "done-segup": [bytes([0x40]) + RC.mux(0x2110, 5) + bytes(4), bytes([0x60]) + bytes(7)],
         "done-blkdn": [bytes([0xC2]) + m + le32(7), bytes([0x81, 1, 2, 3, 4, 5, 6, 7]), bytes([0xC1]) + bytes(7)],
         "done-blkup": [bytes([0xA0]) + RC.mux(0x2110, 5) + bytes([bs, 0, 0, 0]), bytes([0xA3]) + bytes(7), bytes([0xA2, 1, bs, 0, 0, 0, 0, 0]), bytes([0xA1]) + bytes(7)],
+        # transfers the server itself had to end with an abort (the server must be idle again afterwards, too)
+        "abrt-segdn-toggle": [bytes([0x21]) + m + le32(50), bytes([0x00, 1, 2, 3, 4, 5, 6, 7]), bytes([0x00, 1, 2, 3, 4, 5, 6, 7])],
+        "abrt-segup-toggle": [bytes([0x40]) + m + bytes(4), bytes([0x60]) + bytes(7), bytes([0x60]) + bytes(7)],
+        "abrt-blkdn-overrun": [bytes([0xC0]) + RC.mux(0x2120, 6) + bytes(4), bytes([0x01, 1, 2, 3, 4, 5, 6, 7]), bytes([0x82, 1, 2, 3, 4, 5, 6, 7]), bytes([0xC1]) + bytes(7)],
+        "abrt-segdn-overrun": [bytes([0x20, 0x00, 0x21, 0x02, 0, 0, 0, 0]), bytes([0x08, 1, 2, 3, 0, 0, 0, 0]), bytes([0x11, 1, 2, 3, 4, 5, 6, 7])],
+        "abrt-blkdn-size": [bytes([0xC2]) + RC.mux(0x2120, 6) + le32(500)],
     }[st]
     for f in seq:
         run.step(0, f)
